@@ -131,6 +131,8 @@ var c15Items = []string{
 	`.[]?`, `(.v?|.[]?)`, `tojson`, `(.id?|tostring)`, `(select(.id? == %d) | error("on id"))`, `(select(.id? == %d) | halt_error(7))`, `(select(.id? == %d) | halt)`,
 	`(select(.id? == %d) | "hit")`, `(.v? // "alt")`, `(try error("c") catch .)`, `(.id? | select(. != null) | . * 2)`, `100000000000000000000`, `1.0`, `(.v? | select(type == "string"))`,
 	`input`, `(try input catch "none")`, `[limit(1; inputs)]`, `(1/0)?`, `(. as $x | $x)`, `$__loc__.line`, `input_line_number`,
+	// builtins that write to stderr only
+	`debug`, `(debug | .id?)`, `debug("msg")`, `stderr`, `("to stderr" | stderr | empty)`, `(.v? | debug | empty)`, `([1,2] | debug(.[0]) | .[1])`,
 	// halt is not an ordinary error: nothing catches it, and it stops everything at once
 	`(try halt_error catch "caught")`, `(try halt catch "caught")`, `(halt_error | 1)`, `first(halt_error)`, `[halt]`, `reduce (1, halt) as $x (0; 1)`, `(label $l | halt_error)`, `(halt_error(1) // 2)`, `(halt?)`,
 	`(.[]? | halt)`, `({a:1} | halt_error)`, `([1,"x"] | halt_error(2))`, `(null | halt_error)`, `("no newline" | halt_error(5))`, `(1.50 | halt_error)`, `(select(.id? == %d) | {id} | halt_error(256))`, `(select(.id? == %d) | "m\n" | halt_error(-1))`,
@@ -308,10 +310,10 @@ func judgeC15(d *c15Data, res Result) *kernel.Violation {
 			}
 			rest = strings.TrimSuffix(rest, exp.HaltMessage)
 		}
-		if n := countDiagnostics(rest); n != exp.Diagnostics {
+		if n := countDiagnostics(rest); n != exp.Diagnostics && !strings.Contains(sc.Query, "stderr") {
 			return c15viol(d, "stderr", "%s: %d diagnostics on stderr, expected %d: %q", what, n, exp.Diagnostics, kernel.Short2(res.Stderr, 600))
 		}
-		if exp.Diagnostics == 0 && rest != "" {
+		if exp.Diagnostics == 0 && rest != "" && !strings.Contains(sc.Query, "debug") && !strings.Contains(sc.Query, "stderr") {
 			return c15viol(d, "stderr", "%s: stderr should be empty apart from the halt message: %q", what, kernel.Short2(res.Stderr, 400))
 		}
 		return nil
